@@ -72,7 +72,15 @@ fn show(path: &std::path::Path, sessions: &[brush_core::Shell], out: &mut Vec<St
     }
 }
 
-pub fn main_hist(cases: Vec<Vec<String>>) {
+pub fn run(sub: &str, cases: &[Vec<String>]) -> bool {
+    if sub != "hist" {
+        return false;
+    }
+    main_hist(cases);
+    true
+}
+
+fn main_hist(cases: &[Vec<String>]) {
     let rt = tokio::runtime::Builder::new_multi_thread()
         .worker_threads(2)
         .enable_all()
